@@ -86,6 +86,14 @@ def _uint(bits, rng):
     if bits == 16:
         outside += [2**31, 2**32 - 1, 65537, 131071]
     out += [R(v, "outside") for v in outside]
+    # out-of-range numbers that are not integers: rejected like -1 and MAX+1 (in-range non-integral numbers such as 3.7 are
+    # NOT offered: the statement does not name them and the library accepts them today)
+    from decimal import Decimal
+    from fractions import Fraction
+
+    nonint = [-0.5, -1e-9, top + 0.5, float(top + 1), float(2**32) - 0.5 if bits == 16 else float(2**33), Fraction(-1, 2), Fraction(2 * top + 1, 2),
+              Fraction(2 * (top + 1) + 1, 2), Decimal(str(top) + ".9"), Decimal("-0.1"), Decimal(top + 1), -rng.random() - 1e-6, top + 1 + rng.random() * 1000]
+    out += [R(v, "outside-nonintegral") for v in nonint]
     out += [O(v) for v in ("12", "abc", "", b"7", [], (1,), True)]
     return out
 
@@ -93,6 +101,12 @@ def _uint(bits, rng):
 def _boolean(rng):
     out = [A(True, "boundary", ("int", 1)), A(False, "boundary", ("int", 0)), A(1, "boundary", ("int", 1)), A(0, "boundary", ("int", 0))]
     out += [R(v, "outside") for v in (2, -1, 3, -2, 255, 256, 2**32, -(2**31), 10**20, rng.randint(2, 10**6), -rng.randint(1, 10**6))]
+    # numbers strictly between / outside 0 and 1 that are not integers: "boolean other than 0/1"
+    from decimal import Decimal
+    from fractions import Fraction
+
+    out += [R(v, "fractional") for v in (0.5, 0.25, 1e-9, 0.999999, -0.5, 1.5, Fraction(1, 2), Fraction(1, 3), Decimal("0.5"), Decimal("0.001"), rng.uniform(0.001, 0.999))]
+    out += [O(v, "wrongkind", ("int", int(v))) for v in (0.0, 1.0, Decimal(1), Fraction(0))]
     out += [O(v) for v in ("1", "0", "true", "", b"\x01", [], (0,))]
     return out
 
